@@ -50,6 +50,10 @@ def frame_of(p: str) -> bytes:
         return simnet.plain_raw(25, b"\xff\xff\xff")
     if p == "garbage":
         return b"\x07\x07\x07"
+    if p == "srvhello":
+        # a Noise ServerHello frame (indicator 1, 16-bit length; chosen protocol 1, name, mac) announcing ANOTHER device
+        body = b"\x01" + b"zzz\x00" + b"aabbccddeeff\x00"
+        return b"\x01" + len(body).to_bytes(2, "big") + body
     raise ValueError(p)
 
 
